@@ -51,7 +51,8 @@ TickDone ==
 (* with a panic); nothing is considered persisted by it                                 *)
 TickFailed ==
   /\ E.ev = "tick" /\ E.cls # "ok"
-  /\ "S3" \in {Cfg.checks[i] : i \in DOMAIN Cfg.checks} /\ E.putfail
+  \* (the panic poisons the snapshot queue lock: every later snapshot run of this process fails too)
+  /\ "S3" \in {Cfg.checks[i] : i \in DOMAIN Cfg.checks} /\ (E.putfail \/ upfail)
   /\ queue' = {} /\ upfail' = TRUE
   /\ UNCHANGED <<persisted, used>>
 
@@ -85,7 +86,7 @@ Dev_S3IncrementalReplaces ==
   /\ E.ev = "restart" /\ E.cls = "ok" /\ RestoredExactly = FALSE
   /\ (\E d \in DOMAIN persisted : d \in DOMAIN E.dbs /\ ~KeysSame(d)) = TRUE
   /\ (\A d \in DOMAIN persisted : d \in DOMAIN E.dbs /\ SubsetKeys(d)
-                                    /\ (Proj(E.dbs[d]).id = persisted[d].id /\ Proj(E.dbs[d]).strategy = persisted[d].strategy
+                                    /\ ((Proj(E.dbs[d]).id = persisted[d].id /\ Proj(E.dbs[d]).strategy = persisted[d].strategy)
                                         \/ MetaHard(d))) = TRUE
   /\ queue' = {} /\ UNCHANGED <<persisted, upfail>>
   /\ used' = used \cup {"Dev_S3IncrementalReplaces"}
